@@ -119,10 +119,15 @@ def run(task):
                 if want_hard != "ok":
                     res["nontrivial"].append(key)
                 seen_v = set()
-                for order in orders(list(combo)):
+                variants = [(o, False) for o in orders(list(combo))]
+                # a unitary alignment is a set of (annotator, unit) couples: listing the annotators in another
+                # order inside SOME of the unitary alignments must not change any verdict
+                variants += [(variants[0][0], True), (variants[-1][0], True)]
+                for order, flip in variants:
                     def uas():
-                        return [pa.UnitaryAlignment([(a, None if x is None else to_unit(x)) for a, x in pool[i]])
-                                for i in order]
+                        return [pa.UnitaryAlignment([(a, None if x is None else to_unit(x))
+                                                     for a, x in (pool[i][::-1] if (flip and k % 2 == 1) else pool[i])])
+                                for k, i in enumerate(order)]
                     got = {
                         "hard.check": verdict(lambda: pa.Alignment(uas(), continuum=c).check()),
                         "hard.check(c)": verdict(lambda: pa.Alignment(uas()).check(c)),
@@ -145,7 +150,8 @@ def run(task):
                                 "msg": f"{point}: {g} but own-unit counts {sorted(counts.values())} "
                                        f"({'missing' if missing else 'none missing'}, "
                                        f"{'repeated' if twice else 'none repeated'}) demand {want}",
-                                "case": {"spec": spec, "nts": [pool[i] for i in order], "point": point},
+                                "case": {"spec": spec, "nts": [(pool[i][::-1] if (flip and k % 2 == 1) else pool[i])
+                                                               for k, i in enumerate(order)], "point": point},
                                 "sig": h([point, g, want, missing, twice, len(combo), len(res["violations"]) // 3])})
                     seen_v.add(h(got))
                 if want_hard == "ok" and size <= 3:
